@@ -335,6 +335,22 @@ pub fn drive_encrypt(t: &mut Tracer, tier: &str, seed: u64, plan: Option<String>
             decrypt_event(t, &sess(), "C05", &key.d, &ct, orders[f % 2], f >= 2, "own-ciphertext");
         }
     }
+    // the top of the property's length range (2^16 bytes): raw and as the GM/T 0009 SEQUENCE (its length octets change form at 65536)
+    {
+        // (each such event costs the specification about a minute: 5 000 SM3 compressions; quick tier: one message, as the DER SEQUENCE only)
+        let lens: Vec<usize> = if thorough { vec![65400, 65432, 65500, 65535, 65536] } else { vec![65536] };
+        for (i, len) in lens.iter().enumerate() {
+            let gg = Gen::new("mix", rng.below(1 << 20));
+            let m = gg.msg(*len);
+            let mut k = rng.bytes(32); k[0] &= 0x7f;
+            if thorough {
+                if let Some(ct) = encrypt_event(t, &sess(), &key, Some(&gg), &m, orders[i % 2], false, vec![b32(&k)]) {
+                    decrypt_event(t, &sess(), "C05", &key.d, &ct, orders[i % 2], false, "own-ciphertext");
+                }
+            }
+            asn1_enc_event_p(t, &sess(), "C05", &key, &m, vec![b32(&k)], "long", false, "c1c3c2");
+        }
+    }
     // a message longer than 255 KDF blocks (the 32-bit counter's second byte comes into play)
     {
         let gg = Gen::new("mix", rng.below(1 << 20));
@@ -490,6 +506,15 @@ pub fn drive_decrypt_faults(t: &mut Tracer, tier: &str, seed: u64, plan: Option<
                 if c2 != ct { decrypt_event(t, &sess(), "C06", &key.d, &c2, order, comp, "fold-c3"); }
             }
         }
+        // the tag byte of C1 replaced by EVERY other value while the rest of the ciphertext stays as it is (a single bit flip reaches only 8 of them):
+        // in particular 02 / 03 in front of an uncompressed C1 -- x is still there, a decoder that reads "compressed point, then something" accepts it --
+        // and 04 in front of a compressed one
+        for tag in 0..=255u8 {
+            if tag == ct[0] || (!thorough && i > 0 && !(tag <= 8 || tag % 32 == 0)) { continue; }
+            let mut c2 = ct.clone(); c2[0] = tag;
+            decrypt_event(t, &sess(), "C06", &key.d, &c2, order, comp, "retag");
+            if !comp && (tag == 2 || tag == 3) { let mut c3 = c2.clone(); for b in c3[33..65].iter_mut() { *b = rng.below(256) as u8; } decrypt_event(t, &sess(), "C06", &key.d, &c3, order, comp, "retag-junk-y"); }
+        }
         // wrong format flags, extension, other key
         decrypt_event(t, &sess(), "C06", &key.d, &ct, order, !comp, "wrong-encoding-flag");
         decrypt_event(t, &sess(), "C06", &key.d, &ct, orders[(i + 1) % 2], comp, "wrong-order");
@@ -611,6 +636,11 @@ fn kx_run(t: &mut Tracer, sess: &str, run: &KxRun, rng: &mut Rng) {
     let common = json!({"prop": "C15", "pkA": bytes(&ka.pk65), "pkB": bytes(&kb.pk65), "idA": bytes(run.ida.as_bytes()), "idB": bytes(run.idb.as_bytes()), "klen": run.klen});
     let with = |extra: Value| { let mut m = common.clone(); for (k, v) in extra.as_object().unwrap() { m[k] = v.clone(); } m };
     let tam = |flag: bool| if flag || run.none_mask & 16 != 0 { run.kind.clone() } else { "none".to_string() };
+    // none_mask bit 6 (64): the SAME two Exchange objects run the protocol again (and a third time) after the first run: every run draws fresh
+    // ephemeral scalars and must stand on its own (state left behind by an earlier run must not leak into the next)
+    let runs = if run.none_mask & 64 != 0 { 3 } else { 1 };
+    for _run_no in 0..runs {
+    let rerun = _run_no > 0;
     // step 1
     let a1 = a.clone();
     let (o1, ks1) = hooked(move || a1.lock().unwrap().exchange_1(), run.ra_script.clone());
@@ -625,7 +655,7 @@ fn kx_run(t: &mut Tracer, sess: &str, run: &KxRun, rng: &mut Rng) {
     let key_b = b.lock().unwrap().verif_state().0.unwrap_or_default();
     let (rb, sb) = match o2.ok() { Some((p, s)) => (*p, *s), None => (Point::zero(), [0u8; 32]) };
     t.emit(sess, "kx.step2", with(json!({"d": bytes(&kb.d), "r": bytes(&r_b), "ra_in": pt_json(&ra_recv), "rb_out": pt_json(&rb), "sb": bytes(&sb), "key": bytes(&key_b),
-        "tamper": tam(run.t_ra), "outcome": o2.name(), "detail": o2.detail()})));
+        "tamper": if rerun { "rerun".to_string() } else { tam(run.t_ra) }, "outcome": o2.name(), "detail": o2.detail()})));
     if o2.ok().is_none() { return; }
     let mut rb_recv = if run.t_rb { tamper_point(&rb, &run.kind, rng) } else { rb };
     let mut sb_recv = if run.t_sb { tamper_hash(&sb, &run.kind, rng) } else { sb };
@@ -639,7 +669,7 @@ fn kx_run(t: &mut Tracer, sess: &str, run: &KxRun, rng: &mut Rng) {
     let (o3, _) = hooked(move || a3.lock().unwrap().exchange_3(&rb_recv, sb_recv), vec![]);
     let key_a = a.lock().unwrap().verif_state().0.unwrap_or_default();
     let sa = o3.ok().cloned().unwrap_or([0u8; 32]);
-    let t3 = if run.forge.is_some() { "offcurve-forged".to_string() } else if run.t_rb || run.t_sb { run.kind.clone() } else if run.t_ra { format!("after-{}", run.kind) } else { "none".into() };
+    let t3 = if rerun { "rerun".to_string() } else if run.forge.is_some() { "offcurve-forged".to_string() } else if run.t_rb || run.t_sb { run.kind.clone() } else if run.t_ra { format!("after-{}", run.kind) } else { "none".into() };
     t.emit(sess, "kx.step3", with(json!({"d": bytes(&ka.d), "r": bytes(&r_a), "rb_in": pt_json(&rb_recv), "sb_in": bytes(&sb_recv), "sa": bytes(&sa), "key": bytes(&key_a),
         "tamper": t3, "outcome": o3.name(), "detail": o3.detail()})));
     // step 4: the adversary delivers SA (possibly altered), or junk if A sent nothing
@@ -647,9 +677,10 @@ fn kx_run(t: &mut Tracer, sess: &str, run: &KxRun, rng: &mut Rng) {
     let b4 = b.clone();
     let (o4, _) = hooked(move || b4.lock().unwrap().exchange_4(sa_recv, &ra_recv), vec![]);
     let acc = o4.ok().cloned().unwrap_or(false);
-    let t4 = if run.forge.is_some() && o3.ok().is_some() { "after-offcurve-forged".to_string() } else if o3.ok().is_none() { "injected".to_string() } else if run.t_sa { run.kind.clone() } else if run.t_ra || run.t_rb || run.t_sb { format!("after-{}", run.kind) } else { "none".into() };
+    let t4 = if rerun { "rerun".to_string() } else if run.forge.is_some() && o3.ok().is_some() { "after-offcurve-forged".to_string() } else if o3.ok().is_none() { "injected".to_string() } else if run.t_sa { run.kind.clone() } else if run.t_ra || run.t_rb || run.t_sb { format!("after-{}", run.kind) } else { "none".into() };
     t.emit(sess, "kx.step4", with(json!({"d": bytes(&kb.d), "r": bytes(&r_b), "ra_in": pt_json(&ra_recv), "sa_in": bytes(&sa_recv), "accepted": if acc { 1 } else { 0 },
         "tamper": t4, "outcome": o4.name(), "detail": o4.detail()})));
+    }
 }
 
 pub fn drive_kex(t: &mut Tracer, tier: &str, seed: u64, plan: Option<String>) {
@@ -669,6 +700,12 @@ pub fn drive_kex(t: &mut Tracer, tier: &str, seed: u64, plan: Option<String>) {
     for (i, klen) in klens.iter().enumerate() {
         let run = KxRun { t_ra: false, t_rb: false, t_sb: false, t_sa: false, kind: "none".into(), klen: *klen, ida: format!("alice{}", i), idb: if i % 3 == 0 { "1234567812345678".into() } else { format!("bob-{}", i) },
             ra_script: vec![], rb_script: vec![], da: rk(&mut rng), db: rk(&mut rng), forge: None, none_mask: 0 };
+        kx_run(t, &sess(), &run, &mut rng);
+    }
+    // the same pair of Exchange objects used for three consecutive runs (honest, and with a tampered run in the middle of the plan below)
+    for klen in [16usize, 48] {
+        let run = KxRun { t_ra: false, t_rb: false, t_sb: false, t_sa: false, kind: "none".into(), klen, ida: "alice-again".into(), idb: "bob-again".into(),
+            ra_script: vec![], rb_script: vec![], da: rk(&mut rng), db: rk(&mut rng), forge: None, none_mask: 64 };
         kx_run(t, &sess(), &run, &mut rng);
     }
     // non-ASCII identities (multi-byte UTF-8): Z_A / Z_B hash the identity's bytes
@@ -853,6 +890,8 @@ fn codec_decode_event_der(t: &mut Tracer, sess: &str, kind: &'static str, input:
             "sk_hex" => Sm2PrivateKey::from_hex_string(std::str::from_utf8(&inp).map_err(|x| e(&x))?).map(|s| s.to_bytes_be()).map_err(|x| e(&x)),
             "spki_der" => Sm2PublicKey::from_public_key_der(&inp).map(|p| p.to_bytes(false)).map_err(|x| e(&x)),
             "spki_pem" => Sm2PublicKey::from_public_key_pem(std::str::from_utf8(&inp).map_err(|x| e(&x))?).map(|p| p.to_bytes(false)).map_err(|x| e(&x)),
+            // the FromStr path (`"...".parse::<Sm2PublicKey>()`): judged exactly like spki_pem
+            "spki_pem_str" => std::str::from_utf8(&inp).map_err(|x| e(&x))?.parse::<Sm2PublicKey>().map(|p| p.to_bytes(false)).map_err(|x| e(&x)),
             "pkcs8_der" => Sm2PrivateKey::from_pkcs8_der(&inp).map(|s| s.to_bytes_be()).map_err(|x| e(&x)),
             _ => Sm2PrivateKey::from_pkcs8_pem(std::str::from_utf8(&inp).map_err(|x| e(&x))?).map(|s| s.to_bytes_be()).map_err(|x| e(&x)),
         }
@@ -863,11 +902,14 @@ fn codec_decode_event_der(t: &mut Tracer, sess: &str, kind: &'static str, input:
 }
 
 fn asn1_enc_event(t: &mut Tracer, sess: &str, key: &Key, msg: &[u8], script: Vec<[u8; 32]>, shape: &str, compressed: bool, order: &'static str) -> Option<Vec<u8>> {
+    asn1_enc_event_p(t, sess, "C19", key, msg, script, shape, compressed, order)
+}
+fn asn1_enc_event_p(t: &mut Tracer, sess: &str, prop: &str, key: &Key, msg: &[u8], script: Vec<[u8; 32]>, shape: &str, compressed: bool, order: &'static str) -> Option<Vec<u8>> {
     let pk = key.sk.public_key.clone();
     let m = msg.to_vec();
     let (out, ks) = hooked(move || pk.encrypt_asn1(&m, compressed, model_of(order)), script);
     let der = out.ok().cloned().unwrap_or_default();
-    let mut f = json!({"prop": "C19", "pk": bytes(&key.pk65), "ks": ks.iter().map(|k| bytes(k)).collect::<Vec<_>>(), "der": bytes(&der), "shape": shape,
+    let mut f = json!({"prop": prop, "pk": bytes(&key.pk65), "ks": ks.iter().map(|k| bytes(k)).collect::<Vec<_>>(), "der": bytes(&der), "shape": shape,
         "outcome": out.name(), "detail": out.detail()});
     msg_fields(&mut f, None, msg);
     t.emit(sess, "codec.asn1_enc", f);
@@ -946,6 +988,14 @@ pub fn drive_codec(t: &mut Tracer, tier: &str, seed: u64) {
             codec_decode_event(t, &sess(), "pkcs8_der", &p8_c, "compressed-pub", false);
             codec_decode_event(t, &sess(), "pkcs8_der", &p8_n, "no-pub", false);
             let pem = |label: &str, der: &[u8]| { let b = b64(der); let mut s = format!("-----BEGIN {}-----\n", label); for c in b.as_bytes().chunks(64) { s.push_str(std::str::from_utf8(c).unwrap()); s.push('\n'); } s.push_str(&format!("-----END {}-----\n", label)); s };
+            // text-level variants of the library's own canonical documents: CRLF line endings (what a Windows tool or `LineEnding::CRLF` writes), through the
+            // PEM entry points and through FromStr
+            let (spki_d, p8_d) = (arr(&enc["spki_der"]), arr(&enc["p8_der"]));
+            let crlf = |s: String| s.replace("\n", "\r\n");
+            codec_decode_event_der(t, &sess(), "spki_pem", crlf(pem("PUBLIC KEY", &spki_d)).as_bytes(), "crlf", false, &spki_d);
+            codec_decode_event_der(t, &sess(), "spki_pem_str", crlf(pem("PUBLIC KEY", &spki_d)).as_bytes(), "crlf", false, &spki_d);
+            codec_decode_event_der(t, &sess(), "spki_pem_str", pem("PUBLIC KEY", &spki_d).as_bytes(), "lf", false, &spki_d);
+            codec_decode_event_der(t, &sess(), "pkcs8_pem", crlf(pem("PRIVATE KEY", &p8_d)).as_bytes(), "crlf", false, &p8_d);
             codec_decode_event_der(t, &sess(), "pkcs8_pem", pem("PRIVATE KEY", &p8_c).as_bytes(), "compressed-pub", false, &p8_c);
             codec_decode_event_der(t, &sess(), "spki_pem", pem("PUBLIC KEY", &spki_c).as_bytes(), "compressed-pub", false, &spki_c);
         }
@@ -1012,6 +1062,11 @@ pub fn drive_codec(t: &mut Tracer, tier: &str, seed: u64) {
     }
     // the DER form does not depend on the raw-format flags
     let m = rng.bytes(20);
+    for len in if thorough { vec![65425usize, 65432, 65536, 70001] } else { vec![65537usize] } {
+        let long = rng.bytes(len);
+        let mut k = rng.bytes(32); k[0] &= 0x7f;
+        if let Some(der) = asn1_enc_event(t, &sess(), &key, &long, vec![b32(&k)], "long", false, "c1c3c2") { asn1_dec_event(t, &sess(), &key.d, &der, "long"); }
+    }
     asn1_enc_event(t, &sess(), &key, &m, vec![], "alt-flags", true, "c1c3c2");
     asn1_enc_event(t, &sess(), &key, &m, vec![], "alt-flags", false, "c1c2c3");
 }
@@ -1105,6 +1160,26 @@ pub fn drive_ec(t: &mut Tracer, tier: &str, seed: u64, plan: Option<String>) {
         for a in [*p, p2, inf, off, off2] {
             let o = gp(|| a.is_valid());
             t.emit(&sess(), "ec.valid", json!({"prop": "C11", "p": pt_json(&a), "valid": if o.ok() == Some(&true) { 1 } else { 0 }, "outcome": o.name(), "detail": o.detail()}));
+        }
+    }
+    // ---- the point at infinity in OTHER representations than Point::zero(): what P + (-P), [n]G, [n]P leave behind, and (t^2, t^3, 0) --
+    //      as operands of every operation (an identity test that compares with the canonical form misses them) ----
+    {
+        let (p, q) = (pts[1], pts[3 % pts.len()]);
+        let t3 = verif::fp_to_mont(&[3, 0, 0, 0]);
+        let infs: Vec<Point> = vec![p.point_add(&p.neg()), g_mul(&be_u256(&nhex)), q.scalar_mul(&be_u256(&nhex)),
+            Point { x: verif::fp_mont_mul(&t3, &t3), y: verif::fp_mont_mul(&verif::fp_mont_mul(&t3, &t3), &t3), z: [0, 0, 0, 0] }, Point::zero().neg()];
+        for (i, o) in infs.iter().enumerate() {
+            let o2 = infs[(i + 1) % infs.len()];
+            for (a, b) in [(*o, q), (q, *o), (*o, o2), (*o, Point::zero()), (Point::zero(), *o), (*o, rerandomize(&q, &lam(&mut rng)))] {
+                ec_event(t, &sess(), "ec.add", json!({"p": pt_json(&a), "q": pt_json(&b)}), gp(|| a.point_add(&b)));
+            }
+            ec_event(t, &sess(), "ec.dbl", json!({"p": pt_json(o)}), gp(|| o.point_dbl()));
+            ec_event(t, &sess(), "ec.neg", json!({"p": pt_json(o)}), gp(|| o.neg()));
+            let k = be_add_small(&vec![0u8; 32], 7 + i as i64); let ku = be_u256(&k);
+            ec_event(t, &sess(), "ec.smul", json!({"p": pt_json(o), "k": bytes(&k)}), gp(|| o.scalar_mul(&ku)));
+            let v = gp(|| o.is_valid());
+            t.emit(&sess(), "ec.valid", json!({"prop": "C11", "p": pt_json(o), "valid": if v.ok() == Some(&true) { 1 } else { 0 }, "outcome": v.name(), "detail": v.detail()}));
         }
     }
     // ---- representations with SPECIAL stored Z limbs (the plain integer 1 -- not the Montgomery one --, 2, single-limb values, p-1 ...):
